@@ -75,7 +75,10 @@ MsgOptsFew == {"none", "type_oneof", "psm"}
 \* value_prefixed: a value whose short name begins with the enum's prefix once more (E0_E0_X)
 EnumOptsAll == {"none", "no_default", "info_fields", "value_info", "value_prefixed"}
 EnumOptsNone == {"none"}
-RecAll == {"self", "mutual", "map", "repeated", "optional", "oneof", "flatchild", "flatclash", "oneofclash", "flatoneof", "nestclash"}
+RecAll == {"self", "mutual", "map", "repeated", "optional", "oneof", "flatchild", "flatclash", "oneofclash", "flatoneof", "nestclash", "flatlasso"}
+\* recursion forms that need three messages (focus_rec3)
+RecThree == {"flatlasso", "mutual"}
+KindsOne == {"string"}
 \* reduced pools for pair exploration: one representative per class of the kind switch
 KindsPair == {"string", "bool", "int32", "fixed32", "fixed64", "double"}
 WktPair == {"Timestamp", "Struct", "Any", "Empty"}
